@@ -102,6 +102,41 @@ class Check:
         return {}
 
 
+def run_case_in_child(check, case, pyflags=("-O",)):
+    """the violations (as dicts) of one case run in a child interpreter started with other flags"""
+    import subprocess
+    req = json.dumps({"id": check.id, "tier": "thorough" if getattr(check, "thorough", False) else "quick",
+                      "seed": getattr(check, "seed", 0), "case": jsonable(case)})
+    r = subprocess.run([sys.executable] + list(pyflags) + ["-m", "verif.childcase"], input=req, text=True,
+                       capture_output=True, cwd=env.HOME, env=dict(os.environ), timeout=1200)
+    for line in r.stdout.splitlines():
+        if line.startswith("CHILDCASE-RESULT "):
+            return json.loads(line[len("CHILDCASE-RESULT "):])
+    raise HarnessError("child interpreter gave no result: %s" % (r.stderr[-800:],))
+
+
+def optimized(check, case, stats):
+    """case {"kind": "optimized", "sub": <case>}: the sub-case under `python -O`; its violations are
+    reported with ':python-O' appended to the key and replay through the same door"""
+    if sys.flags.optimize:
+        return []        # already the child
+    stats.evaluations += 1
+    out = []
+    known_open = {k["key"] for k in load_known() if k.get("property") == check.id and k.get("status") == "open"}
+    for d in run_case_in_child(check, case["sub"]):
+        if d["key"] in known_open:
+            continue        # the recorded finding, seen once more through this door
+        if d.get("harness"):
+            raise HarnessError("child harness error: %r" % (d,))
+        sub = d.get("case") if isinstance(d.get("case"), dict) else case["sub"]
+        if d.get("choices"):
+            sub = dict(sub, choices=d["choices"])
+        out.append(Violation(check.id, d["key"] + ":python-O", {"kind": "optimized", "sub": sub}, None,
+                             d.get("observed"), d.get("expected"), d.get("clause", "")))
+    stats.observe(("optimized", json.dumps(case["sub"], sort_keys=True)[:80], len(out)), nontrivial=True)
+    return out
+
+
 _CHECK = None
 _RUN_BEFORE = []        # indices (in cases()) of the cases this worker process ran before the current one
 
